@@ -749,11 +749,13 @@ def usagesOcc (S : Schema) : Occ → List Usage
 def reachableFrom (D : Document) (start : List String) : List String :=
   reachable D (allSpreads D).length (dedup start)
 
-def fragUsages (S : Schema) (D : Document) (n : String) : List Usage :=
-  D.flatMap fun
-    | .frag m _ tc _ dirs sel _ =>
-      if m = n then usagesDirs S dirs ++ (occSet S (condScope S tc) sel).flatMap (usagesOcc S) else []
-    | _ => []
+/-- The usages written in a definition if it is the fragment named `n`. -/
+def fragUsagesOf (S : Schema) (n : String) : Definition → List Usage
+  | .frag m _ tc _ dirs sel _ =>
+    if m = n then usagesDirs S dirs ++ (occSet S (condScope S tc) sel).flatMap (usagesOcc S) else []
+  | _ => []
+
+def fragUsages (S : Schema) (D : Document) (n : String) : List Usage := D.flatMap (fragUsagesOf S n)
 
 /-- Variable usages in scope of an operation: in its directives, its selection set, and all
     fragments it reaches transitively (§5.8.3). -/
